@@ -258,7 +258,7 @@ def build_py(ctx: Ctx, text: str, tag: str, backend: str = "numpy", rm: RefModel
         if on_codegen_error == "skip":
             ctx.count(f"codegen_failed/{type(ex).__name__}")
             return None
-        ctx.violate(f"{tag}/{backend}/codegen-exception/{type(ex).__name__}/{construct_of(rm)}",
+        ctx.violate(f"{tag}/{backend}/codegen-exception/{exc_kind(ex, rm)}",
                     f"accepted model, but {backend} code generation raised {type(ex).__name__}: {str(ex)[:120]}",
                     case={"text": text, "opts": _jsonable(opts)}, error=repr(ex))
         return None
@@ -281,6 +281,17 @@ def model_usable(rm: RefModel, text: str) -> bool:
         for mv in rm.missing():
             pt[mv] = 0.5
     return any(rm.usable(pt, 1) is not None for pt in probe)
+
+
+def exc_kind(ex: Exception, rm: RefModel) -> str:
+    """deterministic classification of a code-generation failure (finding keys)"""
+    msg = f"{type(ex).__name__}: {ex}"
+    if "Derivative" in msg:
+        ops: dict = {}
+        for d, (s, e) in rm.derivs.items():
+            sexp.ops(e, ops)
+        return "unprintable-Derivative/" + ("floor-or-mod" if ("fn:floor" in ops or "mod" in ops) else "other")
+    return type(ex).__name__
 
 
 def construct_of(rm: RefModel) -> str:
